@@ -1,8 +1,8 @@
-from asyncio import CancelledError, Task, TaskGroup, get_event_loop
+from asyncio import CancelledError, Task, TaskGroup, current_task, get_event_loop
 from collections.abc import Callable, Coroutine
 from contextvars import ContextVar, Token, copy_context
 from types import TracebackType
-from typing import final
+from typing import Any, final
 
 __all__ = [
     "TaskGroupContext",
@@ -54,6 +54,9 @@ class TaskGroupContext:
         TaskGroupContext._context.reset(self._token)
         self._token = None
 
+        task: Task[Any] | None = current_task()
+        cancelling: int = task.cancelling() if task is not None else 0
+
         try:
             await self._group.__aexit__(
                 et=exc_type,
@@ -65,4 +68,10 @@ class TaskGroupContext:
             raise  # never silence cancellation, it might have been requested when awaiting tasks
 
         except BaseException:
+            # group exiting with an exception is aborting from the start, it never cancels
+            # its parent then - cancellation requested meanwhile came from the outside
+            # and was dropped by the group in favour of the exception, do not lose it
+            if exc_type is not None and task is not None and task.cancelling() > cancelling:
+                raise CancelledError() from None
+
             pass  # silence TaskGroup exceptions, if there was exception already we will get it
